@@ -23,3 +23,36 @@ pub fn encode_encrypted_hook(
 ) -> std::io::Result<()> {
     ExtensionField::encode_encrypted(w, fields_to_encrypt, cipher, version)
 }
+
+// ---------------------------------------------------------------- C23/C25 encrypted-field framing (lead)
+/// `RawEncryptedField::from_message_bytes`: Ok -> (nonce offset/len, ciphertext offset/len) relative
+/// to `message_bytes`; Err -> None. Offsets are recovered from the returned slices' positions.
+pub fn encrypted_field_frame(message_bytes: &[u8]) -> Option<(usize, usize, usize, usize)> {
+    match RawEncryptedField::from_message_bytes(message_bytes) {
+        Ok(f) => {
+            let base = message_bytes.as_ptr() as usize;
+            Some((
+                f.nonce.as_ptr() as usize - base,
+                f.nonce.len(),
+                f.ciphertext.as_ptr() as usize - base,
+                f.ciphertext.len(),
+            ))
+        }
+        Err(_) => None,
+    }
+}
+
+/// One extension field from raw bytes: `RawExtensionField::deserialize` then `ExtensionField::decode`
+/// (the two private steps the packet decoder performs per field). None = rejected.
+pub fn ef_decode_one<'a>(data: &'a [u8], minimum_size: usize, version: ExtensionHeaderVersion) -> Option<(ExtensionField<'a>, usize)> {
+    let raw = RawExtensionField::deserialize(data, minimum_size, version).ok()?;
+    let wire = raw.wire_length(version);
+    let ef = ExtensionField::decode(&raw, version).ok()?;
+    Some((ef, wire))
+}
+pub fn ef_is_refid_request(ef: &ExtensionField<'_>) -> bool {
+    matches!(ef, ExtensionField::ReferenceIdRequest(_))
+}
+pub fn ef_is_padding(ef: &ExtensionField<'_>) -> bool {
+    matches!(ef, ExtensionField::Padding(_))
+}
